@@ -643,8 +643,8 @@ class ExprMixin:
                 return val
         if fld is not None:
             typ = self.field_type(holder, fld, fr)
-            if typ is None and fr is not None:
-                typ = fr.env.get('__refined__', {}).get(base.path + (fld.name,))
+            if not isinstance(typ, ClassInfo) and fr is not None:
+                typ = fr.env.get('__refined__', {}).get(base.path + (fld.name,), typ)
             return SelfV(base.path + (fld.name,), typ, base.root_cls)
         v = holder.resolve_var(attr)
         if v is not None:
